@@ -25,7 +25,7 @@ var fakeNow time.Time
 
 func parseNow(s string) time.Time {
 	for _, layout := range []string{"2006-01-02T15:04:05", "2006-01-02T15:04"} {
-		if t, err := time.ParseInLocation(layout, s, time.UTC); err == nil {
+		if t, err := time.ParseInLocation(layout, s, caseLoc); err == nil {
 			return t
 		}
 	}
@@ -134,6 +134,7 @@ func runHistory(c M) M {
 	for name, text := range sub(c, "files") {
 		s, _ := text.(string)
 		p := filepath.Join(work, name)
+		os.MkdirAll(filepath.Dir(p), 0755)
 		if err := os.WriteFile(p, []byte(symToBytes(s)), 0644); err != nil {
 			panic(err)
 		}
@@ -142,6 +143,11 @@ func runHistory(c M) M {
 	sort.Strings(names)
 	if bm := str(c, "bookmarks"); bm != "" {
 		os.WriteFile(filepath.Join(home, "bookmarks.json"), []byte(bm), 0644)
+	}
+	// the target file may be given by the default bookmark instead of an argument
+	if db := str(c, "default_bookmark"); db != "" {
+		bm, _ := json.Marshal([]M{{"name": "default", "path": filepath.Join(work, db)}})
+		os.WriteFile(filepath.Join(home, "bookmarks.json"), bm, 0644)
 	}
 	cwd, _ := os.Getwd()
 	os.Chdir(work)
@@ -187,8 +193,10 @@ func runHistory(c M) M {
 		}
 		app.VerifNow = func() time.Time { return fakeNow }
 		ticks := strs(cmd, "ticks")
+		edits := strs(cmd, "edits")
 		nticks := 0
 		tickFiles := []string{}
+		tickPre := []string{}
 		util.VerifTick = nil
 		if len(args) > 0 && args[0] == "pause" {
 			util.VerifTick = func(counter int64) bool {
@@ -199,6 +207,20 @@ func runHistory(c M) M {
 				if int(counter) > len(ticks) {
 					return true
 				}
+				// the environment: somebody else appends a record to the file while `pause` sleeps
+				// (KCli!ExtAppend); the next iteration finds the file like this
+				if int(counter) <= len(edits) && edits[counter-1] != "" {
+					p := filepath.Join(work, "f.klg")
+					b, _ := os.ReadFile(p)
+					sep := "\n\n"
+					if len(b) == 0 || b[len(b)-1] == '\n' {
+						sep = "\n"
+					}
+					os.WriteFile(p, append(b, []byte(sep+symToBytes(edits[counter-1]))...), 0644)
+				}
+				if b, rErr := os.ReadFile(filepath.Join(work, "f.klg")); rErr == nil {
+					tickPre = append(tickPre, bytesToSym(string(b)))
+				}
 				fakeNow = parseNow(ticks[counter-1])
 				nticks++
 				return false
@@ -207,11 +229,27 @@ func runHistory(c M) M {
 		var code int
 		var runErr error
 		var panicMsg string
+		// what arrives on standard input (per command, else per case); without the field standard input is empty
+		stdinText, hasStdin := cmd["stdin"].(string)
+		if !hasStdin {
+			stdinText, _ = c["stdin"].(string)
+		}
+		sf, sErr := os.CreateTemp("", "kdrive-stdin")
+		if sErr != nil {
+			panic(sErr)
+		}
+		sf.WriteString(symToBytes(stdinText))
+		sf.Seek(0, 0)
+		oldStdin := os.Stdin
+		os.Stdin = sf
 		out := captureStdout(func() {
 			panicMsg = try(func() {
 				code, runErr = kmain.Run(app.NewFileOrPanic(home), app.Meta{Specification: "[spec]", License: "[license]", Version: "v0", SrcHash: "0000000"}, config, args)
 			})
 		})
+		os.Stdin = oldStdin
+		sf.Close()
+		os.Remove(sf.Name())
 		util.VerifTick = nil
 		if panicMsg != "" {
 			panic(panicMsg)
@@ -224,6 +262,7 @@ func runHistory(c M) M {
 		step["out"] = bytesToSym(out)
 		step["ticks_run"] = nticks
 		step["tick_files"] = tickFiles
+		step["tick_pre"] = tickPre
 		touched := []string{}
 		ents, _ = os.ReadDir(work)
 		for _, e := range ents {
